@@ -121,7 +121,7 @@ func coqHandler(h *NSpec) string {
 	if h == nil {
 		return "None"
 	}
-	return lib.CoqSome(lib.CoqPair(lib.CoqN(uint64(h.ID)), lib.CoqApp("node_of_spec", h.coq())))
+	return lib.CoqSome(lib.CoqPair(lib.CoqN(uint64(h.ID)), h.coq()))
 }
 
 func coqKey(k *int) string {
@@ -133,9 +133,9 @@ func coqKey(k *int) string {
 
 func (w *Wrap) coq() string {
 	if w == nil {
-		return "(Build_wrap None None None None)"
+		return "(Build_swrap None None None None)"
 	}
-	return lib.CoqApp("Build_wrap", coqHandler(w.Pre), coqKey(w.In), coqKey(w.Out), coqHandler(w.Post))
+	return lib.CoqApp("Build_swrap", coqHandler(w.Pre), coqKey(w.In), coqKey(w.Out), coqHandler(w.Post))
 }
 
 func (p *Prog) coq() string {
@@ -148,21 +148,21 @@ func (p *Prog) coq() string {
 	}
 	switch p.Op {
 	case "node":
-		return lib.CoqApp("PNode", p.W.coq(), lib.CoqN(uint64(p.N.ID)), lib.CoqApp("node_of_spec", p.N.coq()))
+		return lib.CoqApp("SNode", p.W.coq(), lib.CoqN(uint64(p.N.ID)), p.N.coq())
 	case "sub":
-		return lib.CoqApp("PSub", p.W.coq(), p.Kids[0].coq())
+		return lib.CoqApp("SSub", p.W.coq(), p.Kids[0].coq())
 	case "seq":
 		// right-nested binary sequence
 		s := p.Kids[len(p.Kids)-1].coq()
 		for i := len(p.Kids) - 2; i >= 0; i-- {
-			s = lib.CoqApp("PSeq", p.Kids[i].coq(), s)
+			s = lib.CoqApp("SSeq", p.Kids[i].coq(), s)
 		}
 		return s
 	case "par":
-		return lib.CoqApp("PPar", kids())
+		return lib.CoqApp("SPar", kids())
 	case "branch":
-		c := lib.CoqApp("cond_of_spec", lib.CoqApp("Build_cspec", coqBool(p.C.Collect), lib.CoqNat(len(p.Kids)), coqBool(p.C.Fail)))
-		return lib.CoqApp("PBranch", lib.CoqN(uint64(p.C.ID)), c, kids())
+		c := lib.CoqApp("Build_cspec", coqBool(p.C.Collect), lib.CoqNat(len(p.Kids)), coqBool(p.C.Fail))
+		return lib.CoqApp("SBranch", lib.CoqN(uint64(p.C.ID)), c, kids())
 	}
 	panic("bad op")
 }
@@ -213,7 +213,7 @@ type engine struct{}
 
 func (engine) ID() string { return "C04" }
 func (engine) CoqHeader() string {
-	return "From Eino Require Import Base.Util Model.Paradigm Model.StreamOps Model.ParadigmProg Corr.C04.\n"
+	return "From Eino Require Import Base.Util Model.Paradigm Model.StreamOps Model.ParadigmProg Model.ParadigmSpec Corr.C04.\n"
 }
 func (engine) CoqCaseType() string { return "ccase" }
 
